@@ -8,6 +8,39 @@ INT_COEFFS = [-2, -1, 0, 1, 2, 3]
 FLOAT_COEFFS = [-1.5, -1.0, 0.0, 0.5, 1.0, 2.0]
 
 
+def _special_exponents(limit=2100, offset=59):
+    """exponents whose storage-key character chr(e + KEY_OFFSET) is 'special' to str methods / numpy string handling, by group:
+    digits and other numerics, white space, control and unprintable characters, combining marks, quotes and separators"""
+    import unicodedata
+    groups = {"digit": [], "numeric": [], "space": [], "unprintable": [], "combining": [], "punctuation": []}
+    for e in range(limit):
+        c = chr(e + offset)
+        if c.isdigit():
+            groups["digit"].append(e)
+        elif c.isnumeric():
+            groups["numeric"].append(e)
+        elif c.isspace():
+            groups["space"].append(e)
+        elif not c.isprintable():
+            groups["unprintable"].append(e)
+        elif unicodedata.combining(c):
+            groups["combining"].append(e)
+        elif c in "\\'\"`,;:[](){}%":
+            groups["punctuation"].append(e)
+    return groups
+
+
+SPECIAL_GROUPS = _special_exponents()
+SPECIAL_EXPONENTS = sorted(e for g in SPECIAL_GROUPS.values() for e in g)
+
+
+def special_exponents(rng, k=2):
+    """k exponents from one group (so that a whole key can consist of characters of one kind), smallest members favoured"""
+    g = SPECIAL_GROUPS[rng.choice(sorted(SPECIAL_GROUPS))]
+    head = g[:6]
+    return [rng.choice(head if rng.random() < 0.7 else g) for _ in range(k)]
+
+
 def nested(rng, shape, pool):
     if not shape:
         return rng.choice(pool)
@@ -15,7 +48,7 @@ def nested(rng, shape, pool):
 
 
 def rand_poly(rng, shape=None, names=None, maxterms=3, maxexp=3, dtype="int64", pool=None, shapes=SHAPES,
-              names_pool=("q0", "q1", "q2"), force_const_row=False):
+              names_pool=("q0", "q1", "q2"), force_const_row=False, exps=None):
     if shape is None:
         shape = rng.choice(shapes)
     if names is None:
@@ -23,9 +56,11 @@ def rand_poly(rng, shape=None, names=None, maxterms=3, maxexp=3, dtype="int64", 
         names = sorted(rng.sample(list(names_pool), k), key=lambda s: int(s[1:]))
     D = len(names)
     n = rng.randint(1, maxterms)
+    if exps is not None:
+        n = min(n, len(set(exps)) ** D)
     rows = set()
     while len(rows) < n:
-        rows.add(tuple(rng.choice([0, 0, 1, 1, 2, maxexp]) for _ in range(D)))
+        rows.add(tuple(rng.choice(exps if exps is not None else [0, 0, 1, 1, 2, maxexp]) for _ in range(D)))
     rows = sorted(rows)
     if force_const_row and tuple([0] * D) not in rows:
         rows = [tuple([0] * D)] + rows
